@@ -52,14 +52,19 @@ type c17Body struct {
 	// progress: scan with the real progress meter (its ticker goroutines and
 	// tick threads join the schedule); the result must not depend on it
 	progress bool
+	// explicit ROOT arguments (name, id)
+	explicit [][2]string
 }
 
 func c17Bodies(tier string) []c17Body {
 	r := c17Repo()
 	bs := []c17Body{
-		{"scan, whole records", r, modelgit.Plan{}, false, false},
-		{"scan, output in 7-byte writes, cat-file flushing every record", r, modelgit.Plan{Chunk: 7, FlushEvery: 1}, false, false},
-		{"scan with the real progress meter running", r, modelgit.Plan{}, false, true},
+		{"scan, whole records", r, modelgit.Plan{}, false, false, nil},
+		{"scan, output in 7-byte writes, cat-file flushing every record", r, modelgit.Plan{Chunk: 7, FlushEvery: 1}, false, false, nil},
+		{"scan with the real progress meter running", r, modelgit.Plan{}, false, true, nil},
+	}
+	if tg, ok := r.RefID("refs/tags/v"); ok {
+		bs = append(bs, c17Body{"scan with a ROOT argument naming the annotated tag", r, modelgit.Plan{}, false, false, [][2]string{{"v", string(tg)}}})
 	}
 	// more blobs than any batching threshold one might think of, with two
 	// equal maximal blobs next to each other in the listing (positions 1024/1025)
@@ -74,7 +79,7 @@ func c17Bodies(tier string) []c17Body {
 	}
 	bc := big.AddCommit(mrepo.CommitSpec{Tree: big.AddTree(es), Time: gen.T0, Message: "many blobs\n"})
 	big.SetRef("refs/heads/main", bc)
-	bs = append(bs, c17Body{"scan of 1030 blobs with two equal maxima at listing positions 1024 and 1025", big, modelgit.Plan{}, false, false})
+	bs = append(bs, c17Body{"scan of 1030 blobs with two equal maxima at listing positions 1024 and 1025", big, modelgit.Plan{}, false, false, nil})
 	for _, f := range []modelgit.Fault{
 		{Kind: modelgit.KRevList, StdoutBytes: 45, StdinLines: -1, Exit: 128},
 		{Kind: modelgit.KRevList, StdoutBytes: -1, StdinLines: 1, Exit: 128},
@@ -83,7 +88,7 @@ func c17Bodies(tier string) []c17Body {
 		{Kind: modelgit.KBatch, StdoutBytes: -1, StdinLines: -1, AtExit: true, Exit: 1},
 		{Kind: modelgit.KForEachRef, StdoutBytes: 70, StdinLines: -1, Exit: 128},
 	} {
-		bs = append(bs, c17Body{fmt.Sprintf("scan with fault %s stdout=%d stdin=%d atexit=%v exit=%d", f.Kind, f.StdoutBytes, f.StdinLines, f.AtExit, f.Exit), r, modelgit.Plan{Faults: []modelgit.Fault{f}}, true, false})
+		bs = append(bs, c17Body{fmt.Sprintf("scan with fault %s stdout=%d stdin=%d atexit=%v exit=%d", f.Kind, f.StdoutBytes, f.StdinLines, f.AtExit, f.Exit), r, modelgit.Plan{Faults: []modelgit.Fault{f}}, true, false, nil})
 	}
 	return bs
 }
@@ -102,7 +107,7 @@ func c17Sched(sh *explore.Shard) {
 		if len(b.repo.Objects) > 1000 {
 			bound = 1
 		}
-		sc := &gen.Scenario{Repo: b.repo}
+		sc := &gen.Scenario{Repo: b.repo, Explicit: b.explicit}
 		want := oracle.Compute(b.repo, sc.Roots()).Numbers()
 		var res inproc.Result
 		body := func() {
@@ -111,7 +116,7 @@ func c17Sched(sh *explore.Shard) {
 			if b.progress {
 				pm = meter.NewProgressMeter(io.Discard, time.Hour)
 			}
-			res = inproc.Scan(modelgit.NewEnv(b.repo, &plan), inproc.SimpleGrouper{Walk: sc.Walks}, nil, sizes.NameStyleFull, pm)
+			res = inproc.Scan(modelgit.NewEnv(b.repo, &plan), inproc.SimpleGrouper{Walk: sc.Walks}, b.explicit, sizes.NameStyleFull, pm)
 		}
 		if b.progress {
 			bound = 1
@@ -457,7 +462,7 @@ func c17Replay(caseJSON []byte) (string, error) {
 			if b.progress {
 				pm = meter.NewProgressMeter(io.Discard, time.Hour)
 			}
-			res = inproc.Scan(modelgit.NewEnv(b.repo, &plan), inproc.SimpleGrouper{Walk: sc.Walks}, nil, sizes.NameStyleFull, pm)
+			res = inproc.Scan(modelgit.NewEnv(b.repo, &plan), inproc.SimpleGrouper{Walk: sc.Walks}, b.explicit, sizes.NameStyleFull, pm)
 		}
 		verifsched.Run(body, nil, verifsched.Sched{})
 		j0, _ := json.Marshal(res.HS)
@@ -499,7 +504,7 @@ func c17Parent(prop, tier string) int {
 		fmt.Println("HARNESS-ERROR: scheduler build missing:", err)
 		return 2
 	}
-	total, crashes, err := explore.RunSharded(explore.Options{Property: prop, Tier: tier, Shards: 16, Budget: budget, Exe: exe})
+	total, crashes, err := explore.RunSharded(explore.Options{Property: prop, Tier: tier, Shards: 16, Budget: budget, Horizon: budget + 30*time.Minute, Exe: exe})
 	if err != nil {
 		fmt.Println("HARNESS-ERROR:", err)
 		return 2
@@ -514,6 +519,6 @@ func c17Parent(prop, tier string) int {
 
 func init() {
 	Registry["C17"] = &Check{Level: "model_checking", Worker: c17Worker, Parent: c17Parent, ReplayExe: "/verif/.build/vcheck-sched", Replay: c17Replay, QuickBudget: 90 * time.Second, ThoroughBudget: 15 * time.Minute,
-		Rule:        "(part 2, deciding determinism over schedules) the real ScanRepositoryUsingGraph, CollectReferences, obj_iter.go, batch_obj_iter.go, ref_iter.go and the verbatim go-pipe pipeline/function/scanner code, mechanically rewritten from their current text so that every mutex, atomic, channel operation, select, close, context cancellation, go statement and pipe read/write is a scheduling point; threads: main, the two feeder goroutines, every pipeline stage goroutine and the model git processes; ALL schedules with at most 2 (quick; 1 for the fault bodies) / 3 (thorough) deviations from the default schedule for 4 fault-free bodies (whole records; 7-byte writes with per-record flushing; the real progress meter with its ticker goroutines running, bound 1/2; 1030 blobs with two equal maxima, bound 1) and 6 single-fault bodies; oracle: every schedule yields the same HistorySize JSON (numbers = oracle, same cited objects and descriptions), no deadlock, no panic, and with a fault an error in every schedule. (part 1, read-only) real binary + real git: 3 repositories (one with root trees above 64 kiB in consecutive commits) x 7 argument vectors (one with three ROOT arguments) x 8 addressing modes: snapshot (mode, size, mtime-ns, SHA-256) of git dir, work tree, index and linked worktree identical before and after; 6 repeated runs with GOMAXPROCS 1..16 give byte-identical stdout; thorough additionally traces the run with strace -f and rejects any successful write-type system call on a path inside the repository; the git commands issued (model git log) stay within the read-only plumbing whitelist; auxiliary: 3 free-running runs per case of a -race build (a report is a violation, silence is not evidence). states = distinct observations over schedules; transitions = scheduling steps; non-trivial = executions whose schedule contains at least one deviation, plus read-only cases",
+		Rule:        "(part 2, deciding determinism over schedules) the real ScanRepositoryUsingGraph, CollectReferences, obj_iter.go, batch_obj_iter.go, ref_iter.go and the verbatim go-pipe pipeline/function/scanner code, mechanically rewritten from their current text so that every mutex, atomic, channel operation, select, close, context cancellation, go statement and pipe read/write is a scheduling point; threads: main, the two feeder goroutines, every pipeline stage goroutine and the model git processes; ALL schedules with at most 2 (quick; 1 for the fault bodies) / 3 (thorough) deviations from the default schedule for 5 fault-free bodies (whole records; a ROOT argument naming the annotated tag; 7-byte writes with per-record flushing; the real progress meter with its ticker goroutines running, bound 1/2; 1030 blobs with two equal maxima, bound 1) and 6 single-fault bodies; oracle: every schedule yields the same HistorySize JSON (numbers = oracle, same cited objects and descriptions), no deadlock, no panic, and with a fault an error in every schedule. (part 1, read-only) real binary + real git: 3 repositories (one with root trees above 64 kiB in consecutive commits) x 7 argument vectors (one with three ROOT arguments) x 8 addressing modes: snapshot (mode, size, mtime-ns, SHA-256) of git dir, work tree, index and linked worktree identical before and after; 6 repeated runs with GOMAXPROCS 1..16 give byte-identical stdout; thorough additionally traces the run with strace -f and rejects any successful write-type system call on a path inside the repository; the git commands issued (model git log) stay within the read-only plumbing whitelist; auxiliary: 3 free-running runs per case of a -race build (a report is a violation, silence is not evidence). states = distinct observations over schedules; transitions = scheduling steps; non-trivial = executions whose schedule contains at least one deviation, plus read-only cases",
 		Assumptions: []string{"race-freedom is not decided by schedule enumeration (scheduling points sit at synchronisation operations); repeated free-running runs are sampling and are reported as such", "the model git processes are threads whose only interaction is through their pipes"}}
 }
